@@ -286,7 +286,7 @@ func (u *Unit) ghostAsserts(done ast.Stmt, st *State) {
 		}
 	}
 	hasTag := func(text, tag string) bool {
-		return strings.HasPrefix(text, tag+" ") || (defTag != "" && where == "" && strings.HasPrefix(text, defTag+" "))
+		return strings.HasPrefix(text, tag+" ") || (defTag != "" && strings.HasPrefix(text, defTag+" "))
 	}
 	for i, c := range b.clauses("assert") {
 		rest := c.Text
@@ -1454,6 +1454,11 @@ func (u *Unit) execRange(n *ast.RangeStmt, st *State, f Flow) {
 		u.assumeLoopFrame(head)
 		body := u.fork(head, app("<", idx, app("slen", x.S)))
 		setKV(body, idx)
+		// `iterassume expr`: a fact about this iteration's key/value taken for granted (reported)
+		for _, c := range lb.clauses("iterassume") {
+			body.assume(u.specEv(body, pos).evSpec(c.Text).S)
+			u.g.Assumed["assumed of every element visited by "+lb.ID()+" (not proved): "+c.Text] = true
+		}
 		endIter := func(s *State) {
 			s.named[idxName] = Term{S: app("+", idx, "1"), Sort: sInt, T: types.Typ[types.Int], Signed: true}
 			u.checkInvariants(lb, s, pos, "preserve", head)
